@@ -659,6 +659,11 @@ func ruleErrorsPropagate(c *Ctx, r *Report, rule string) {
 		var facts []fact
 		pure := true
 		for _, st := range site.ifs.Body.List {
+			if as, isA := st.(*ast.AssignStmt); isA && as.Tok == token.DEFINE && len(as.Rhs) == 1 {
+				if _, isTA := stripParens(as.Rhs[0]).(*ast.TypeAssertExpr); isTA {
+					continue // _, ok := err.(T): a pure definition
+				}
+			}
 			inner, isIf := st.(*ast.IfStmt)
 			if !isIf || inner.Else != nil || len(inner.Body.List) == 0 {
 				pure = false
